@@ -68,3 +68,30 @@ promote_namespace = make_promote("visit_NamespaceNode", ALL, ["classes", "namesp
 promote_class = make_promote("visit_ClassNode", [c for c in ALL if c != "namespaces"], ["classes"])
 
 UNITS = [accumulate, promote_library, promote_namespace, promote_class]
+
+# ---------------------------------------------------------------------------------------------------------
+# WrapFlags.assign sets every flag (defaults False); a default-argument variant created by GenFunctions.has_default_args
+# keeps its function's own choice for C and Fortran and is never wrapped for Python / Lua (they handle defaults
+# themselves): a declaration switched off for a language does not come back through its shorter signatures.
+assign = Unit(
+    prop="C15", name="WrapFlags.assign", target="shroud/ast.py::WrapFlags.assign",
+    params=dict([("self", WRAP)] + [(f, "bool") for f in FLAGS]),
+    modifies=["self"],
+    ensures=["self.%s == %s" % (f, f) for f in FLAGS],
+    raises=[],
+)
+assign.defaults = dict((f, False) for f in FLAGS)
+
+_FN = ("obj", "FunctionNode", {"wrap": WRAP})
+default_arg_clone = Unit(
+    prop="C15", name="GenFunctions.has_default_args[wrap flags of the variant]",
+    target="shroud/generate.py::GenFunctions.has_default_args",
+    slice=("new.wrap.assign($X)", "new.wrap.assign($X)"),
+    params={"node": _FN, "new": _FN},
+    callee_units={("WrapFlags", "assign"): assign},
+    ensures=["new.wrap.c == node.wrap.c", "new.wrap.fortran == node.wrap.fortran",
+             "not new.wrap.python and not new.wrap.lua",
+             "node.wrap.c == old(node).wrap.c and node.wrap.fortran == old(node).wrap.fortran"],
+    raises=[],
+)
+UNITS += [assign, default_arg_clone]
